@@ -363,6 +363,12 @@ def P(detector, **kw) -> None:  # noqa: N802 - referenced from YAML as pyxsim.pr
             _write_scene(detector, v)
         elif b == "data":
             _write_data(detector, tag, v, clk["pipeline_count"])
+        elif b == "data_empty":
+            import xarray as xr
+
+            # groups without data variables: coordinates only, and an empty placeholder
+            detector.data[f"/probe/{tag}_coords"] = xr.DataTree(xr.Dataset(coords={"k": [0, 1, 2]}))
+            detector.data[f"/probe/{tag}_placeholder"] = xr.DataTree()
         else:
             _write(detector, b, ref.bucket_array(b, v, rows, cols, kw))
     if kw.get("snap_trees"):
